@@ -43,6 +43,7 @@ _seen: dict = {}
 _built = [0]
 _preset = []
 _hits: list = []
+_last: list = []
 
 
 def _preset_class():
@@ -133,6 +134,25 @@ def check_case(ctx, case, workload):
                 # what a user does with the object in passing (hashes it, compares it, prints it, copies it) -- here while the default format is in force
                 ctx.hit("object-hashed-compared-printed-or-copied-before-rendering")
                 core.poke(dc, rng)
+            if first and rng.random() < 0.25:
+                # earlier in the process a rendering went wrong: of this chain or of the previous one (same particle names, other decays), abandoned at a random
+                # line of the library's code (Ctrl-C), or refused half-way because the top-level pattern in force cannot be applied to a name
+                from .. import trace  # noqa: PLC0415
+
+                victim = dc if (rng.random() < 0.5 or not _last) else _last[0]
+                how = rng.choice(["abandoned", "abandoned", "unrenderable-top-pattern"])
+                ctx.hit("rendering-after-one-that-went-wrong:" + how)
+                if how == "abandoned":
+                    fp = trace.Failpoint.get()
+                    _, n = fp.count(victim.to_string)
+                    fp.inject(rng.randint(max(1, n // 2), max(1, n)), victim.to_string)
+                else:
+                    try:
+                        with DescriptorFormat("{mother:>12d} => {daughters}", "[{mother} => {daughters}]"):
+                            victim.to_string()
+                    except ValueError:
+                        pass
+                contracts.drain()
             if first and rng.random() < 0.4:
                 # other read-only queries on the same object first
                 ctx.hit("queried-before-to_string")
@@ -223,6 +243,7 @@ def check_case(ctx, case, workload):
         if not ok:
             return
         strings.append(s)
+    _last[:] = [dc]
     ctx.hit("orders-compared", len(strings))
     ctx.mon("C13.direct.order_independent")
     if len(set(strings)) != 1:
